@@ -199,6 +199,18 @@ impl<K: SimKernel<D>, const D: usize> Monitor<K, D> for C11<K, D> {
                             findings.push(("wrong-facet-visibility".into(), label.clone(), format!("is_facet_visible_from_point(facet 0, {q:?}) = {v}, exact: {}", pos.visible.contains(&key))));
                         }
                     }
+                    // every facet of the hull, one by one (the per-facet query has its own code path)
+                    for fi in 1..art.hull.number_of_facets().min(32) {
+                        let Some(f) = art.hull.get_facet(fi) else { continue };
+                        ctx.stats.executions += 1;
+                        if let Ok(v) = art.hull.is_facet_visible_from_point(f, &point, tri) {
+                            let key = (f.cell_key().data().as_ffi(), f.facet_index() as usize);
+                            if v != pos.visible.contains(&key) {
+                                findings.push(("wrong-facet-visibility".into(), label.clone(), format!("is_facet_visible_from_point(facet {fi}, {q:?}) = {v}, exact: {}", pos.visible.contains(&key))));
+                                break;
+                            }
+                        }
+                    }
                 }
             }
         }
